@@ -187,6 +187,14 @@ def o_pipeline(case):
     from bldfm.pbl_model import vertical_profiles
     from bldfm.solver import steady_state_transport_solver
     raw, tw_i, mi = case["raw"], case["tower"], case["step"]
+    if case.get("before") is not None:
+        # an earlier run in the same process whose configuration differs in exactly one entry: whatever it leaves behind
+        # (memo, reused array, module state) must not reach the run under test
+        try:
+            cfg0 = parse_config_dict(case["before"])
+            run_bldfm_single(cfg0, cfg0.towers[min(tw_i, len(cfg0.towers) - 1)], met_index=0)
+        except Exception:  # noqa: BLE001
+            pass
     cfg = parse_config_dict(raw)
     tower = cfg.towers[tw_i]
     flux = None
@@ -250,6 +258,34 @@ def o_yaml(case):
     return None
 
 
+def sibling(rng, raw, which=None):
+    """a copy of the configuration with exactly ONE entry changed"""
+    import copy
+    r = copy.deepcopy(raw)
+    d, sol = r["domain"], r["solver"]
+    k = int(rng.integers(9)) if which is None else which
+    if k == 0:
+        sol["src_loc"] = None if sol.get("src_loc") is not None else [0.4 * d["xmax"], 0.6 * d["ymax"]]
+    elif k == 1:
+        sol["surface_flux_shape"] = [x for x in SHAPES if x != sol["surface_flux_shape"]][int(rng.integers(len(SHAPES) - 1))]
+    elif k == 2:
+        d["modes"] = [d["modes"][0] + 2, d["modes"][1]]
+    elif k == 3:
+        d["halo"] = (d.get("halo") or 10.0) + 7.5
+    elif k == 4:
+        d["output_levels"] = [0, d["nz"]]
+        d.pop("full_output", None)
+    elif k == 5:
+        sol["precision"] = [x for x in PRECS if x != sol["precision"]][0]
+    elif k == 6:
+        sol["footprint"] = not sol["footprint"]
+    elif k == 7:
+        d["xmax"] = d["xmax"] * 1.25
+    else:
+        r["towers"][0]["z_m"] = r["towers"][0]["z_m"] + 0.5
+    return r
+
+
 def run(rng, tier, deep):
     st = new_stats()
     lines, impls, wires = [], [], []
@@ -303,10 +339,18 @@ def run(rng, tier, deep):
     for _ in range(budget(tier, deep, 14, 150)):
         raw, nstep = gen_cfg(rng)
         tw = int(rng.integers(len(raw["towers"])))
-        run_oracle(st, o_pipeline, dict(raw=raw, tower=tw, step=int(rng.integers(nstep)), flux_seed=int(rng.integers(1 << 30)) if rng.random() < 0.3 else None))
+        before, fseed = None, (int(rng.integers(1 << 30)) if rng.random() < 0.3 else None)
+        if rng.random() < 0.6:
+            which = int(rng.integers(9))
+            if which in (0, 1):
+                # the earlier run differs in the configured SOURCE: only a dispersion run with the configured source can see it
+                raw["solver"]["footprint"] = False
+                fseed = None
+            before = sibling(rng, raw, which)
+        run_oracle(st, o_pipeline, dict(raw=raw, tower=tw, step=int(rng.integers(nstep)), flux_seed=fseed, before=before))
         run_oracle(st, o_yaml, dict(raw=raw))
     return finish(st, "configurations over closures x precisions x footprint/dispersion x default/explicit halo and modes x output_levels / empty list / "
                   "full_output / default level x z0-only and ustar forcing x scalar and list forcing x 1-3 towers with different heights x every time index "
                   "(+ out-of-range) x user-supplied flux; correspondence: recorded arguments of the four primitives (which also call the originals) and the "
                   "returned labels vs the Lean call record, plus object identity of the values handed from one primitive to the next; oracle: bit-exact "
-                  "equality with the by-hand pipeline; YAML file == dictionary", deep, 0)
+                  "equality with the by-hand pipeline, also right after a run whose configuration differs in exactly one entry (source location / shape, modes, halo, levels, precision, mode flag, domain, tower height); YAML file == dictionary", deep, 0)
